@@ -505,6 +505,27 @@ impl Monitor for ImageMonitor {
                 }
             }
         }
+        // ... and a frame that was sent as a telegram: not a byte sequence found in the middle of
+        // a transmission whose beginning was thrown away as undecodable
+        for c in p.calls {
+            if let AppCall::Reply { app, addr, frame } = c {
+                if *app == self.dp.app
+                    && !p.rx.iter().any(|r| matches!(&r.verdict, RxVerdict::Consumed { frame: f, aligned: true, .. } if f == frame))
+                {
+                    w.violate(
+                        self.prop,
+                        "image.wire",
+                        "reply-cut-out-of-a-damaged-transmission",
+                        Some(master),
+                        format!(
+                            "the reply {} from #{addr} was delivered to the DP master, but these bytes are the inside of a transmission whose beginning the station had dropped as undecodable: no such telegram was sent",
+                            frame.short()
+                        ),
+                    );
+                    return;
+                }
+            }
+        }
         // which peripheral must / may / must not have been updated in this poll
         let mut must: Option<usize> = None;
         let may: Option<usize> = None;
